@@ -28,7 +28,7 @@ var rR16w = RuleRef{Name: "R16w", Doc: "durability points and validation before 
 		{Pkg: walPkg, Fn: "WAL.ReadAll", At: "call:ZeroToEnd", AllEdges: true, NeedAll: []string{"OK|Seek"}, What: "the zeroing starts at the end of the last valid record (the file is positioned there first)"},
 		{Pkg: walPkg, Fn: "Repair", At: "ret-true", AllEdges: true, NeedAll: []string{"OK|Fsync"}, IfMay: []string{"C|Truncate"}, What: "the truncated file is fsynced before the repair is reported successful"},
 		{Pkg: walPkg, Fn: "decoder.decodeRecord", At: "ret-nil", NeedAll: []string{"OK|Unmarshal"}, NeedAny: []string{"OK|Validate", "T|cmp:4==Type"}, What: "a record is handed out only after it unmarshalled and its CRC validated (CRC records excepted)"},
-		{Pkg: snapPkg, Fn: "Read", At: "ret-nil", NeedAll: []string{"OK|Unmarshal", "T|cmp:Crc==Update()"}, What: "a snapshot is returned only after its CRC matched"},
+		{Pkg: snapPkg, Fn: "Read", At: "ret-nil", NeedAll: []string{"OK|Unmarshal"}, NeedAny: []string{"T|cmp:Crc==Update()", "T|cmp:Checksum()==Crc", "T|cmp:ChecksumIEEE()==Crc", "T|cmp:Crc==Sum32()"}, What: "a snapshot is returned only after its CRC (hash/crc32 over the payload) matched the stored one"},
 		{Pkg: snapPkg, Fn: "Snapshotter.save", At: "ret-nil", NeedAll: []string{"OK|WriteAndSyncFile"}, What: "snapshot files are written through WriteAndSyncFile"},
 	}
 	c.checkOrder("R16w", obs)
@@ -75,34 +75,21 @@ var rR16w = RuleRef{Name: "R16w", Doc: "durability points and validation before 
 		c.Count("R16w_crc_record_validations", n)
 		c.Min("R16w_crc_record_validations", 2)
 	}
-	// isTornEntry consulted on both failure arms of decodeRecord (directly or through a shared helper)
-	if fn := c.P.Func(walPkg, "decoder.decodeRecord"); fn != nil {
-		n := 0
-		torn := c.P.Func(walPkg, "decoder.isTornEntry")
-		for _, b := range fn.Blocks {
-			for _, in := range b.Instrs {
-				if ci, ok := in.(*ssa.Call); ok {
-					if callName(ci) == "isTornEntry" {
-						n++
-					} else if cf := callee(ci); cf != nil && cf != fn && torn != nil && firstParty(cf) == false && cf.Pkg == fn.Pkg && callsTransitively(cf, torn, 0) {
-						n++
-					}
-				}
-			}
-		}
-		c.Add("R16w", fnName(fn), "isTornEntry is consulted on the unmarshal-failure arm and on the CRC-mismatch arm", fn.Pos(), n >= 2, "found "+itoa(n)+" calls")
-	}
+	// isTornEntry consulted on both failure arms of decodeRecord (directly or through a shared helper), path by path:
+	// no error is reported after a failed Unmarshal or a failed Validate unless the torn-write test was made on the way
+	c.checkOrder("R16w", []ordOb{{Pkg: walPkg, Fn: "decoder.decodeRecord", At: "ret-err", AllEdges: true, IfMay: []string{"ERR|Unmarshal", "ERR|Validate"}, NeedAll: []string{"C|isTornEntry"},
+		What: "isTornEntry is consulted on the unmarshal-failure arm and on the CRC-mismatch arm before an error is reported"}})
 	// ReadAll: an entry at index i supersedes everything from i on: the slice is truncated before the append
 	if fn := c.P.Func(walPkg, "WAL.ReadAll"); fn != nil {
 		truncAppend, inPlace := 0, 0
 		// ReadAll itself and the helpers of its package it hands the collected entries to
 		scan := []*ssa.Function{fn}
 		seenFn := map[*ssa.Function]bool{fn: true}
-		for i := 0; i < len(scan) && i < 8; i++ {
+		for i := 0; i < len(scan) && i < 24; i++ {
 			for _, b := range scan[i].Blocks {
 				for _, in := range b.Instrs {
 					if call, ok := in.(*ssa.Call); ok {
-						if cf := callee(call); cf != nil && cf.Blocks != nil && cf.Pkg == fn.Pkg && !seenFn[cf] && strings.Contains(cf.Signature.String(), "raftpb.Entry") {
+						if cf := callee(call); cf != nil && cf.Blocks != nil && cf.Pkg == fn.Pkg && !seenFn[cf] {
 							seenFn[cf] = true
 							scan = append(scan, cf)
 						}
